@@ -15,6 +15,15 @@ from .normal import C, Poly
 from .pyflow import Path, single_atom
 
 
+def _single(p: Any) -> Optional[Tuple[Any, ...]]:
+    if not isinstance(p, Poly) or len(p.terms) != 1:
+        return None
+    (m, c), = p.terms.items()
+    if c == 1 and len(m) == 1 and m[0][1] == 1:
+        return m[0][0]
+    return None
+
+
 def replace_atoms(p: Poly, repl: Callable[[Tuple[Any, ...]], Optional[Poly]]) -> Poly:
     from .normal import rebuild
 
@@ -33,6 +42,17 @@ def replace_atoms(p: Poly, repl: Callable[[Tuple[Any, ...]], Optional[Poly]]) ->
                     else:
                         new.append(x)
                 by = rebuild(tuple(new))
+                # {k1: v1, ...}.get(key[, default]) / {..}[key] with a key that folded to a constant
+                nt = tuple(new)
+                if nt[0] == "mcall" and nt[1] == "get" and len(nt[2]) in (2, 3):
+                    da = _single(nt[2][0])
+                    kv = nt[2][1].const_value() if isinstance(nt[2][1], Poly) else None
+                    if da is not None and da[0] == "dict" and kv is not None and all(k_.const_value() is not None for k_ in da[1]):
+                        hit = [v_ for k_, v_ in zip(da[1], da[2]) if k_.const_value() == kv]
+                        if hit:
+                            by = hit[0]
+                        elif len(nt[2]) == 3:
+                            by = nt[2][2]
             for _ in range(e):
                 term = term * by
         out = out + term
@@ -57,6 +77,18 @@ def lit_value(key: Any, truth: bool, repl: Callable[[Tuple[Any, ...]], Optional[
         if x is None:
             return None
         return bool(x) == truth
+    if key[0] == "contains":
+        # item in <literal collection>: (1, 2), {1, 2}, frozenset((1, 2)), set([..]) with constant members
+        x = replace_atoms(key[2], repl).const_value()
+        ca = _single(key[1])
+        while ca is not None and ca[0] == "call" and ca[1] in ("frozenset", "set", "tuple", "list") and len(ca[2]) == 1:
+            ca = _single(ca[2][0])
+        if x is None or ca is None or ca[0] != "tuple":
+            return None
+        members = [m_.const_value() if isinstance(m_, Poly) else None for m_ in ca[1]]
+        if any(m_ is None for m_ in members):
+            return None
+        return (x in members) == truth
     if key[0] in ("eq", "is"):
         a, b = replace_atoms(key[1], repl).const_value(), replace_atoms(key[2], repl).const_value()
         if a is not None and b is not None:
